@@ -218,7 +218,14 @@ Definition handle_unsubscribe (st : store) (parts : list str) : store * res :=
        then (MkStore (boxes st) (filter (fun s => negb (str_eqb s name)) (subs st)) (next_msg st), ROk)
        else (st, RNo).
 
-(** ---- LIST / LSUB (patterns without the implied-parent branch) ---- *)
+(** utils.QuoteString (since "fix: LIST, LSUB and STATUS escape the mailbox name they
+    quote"): ReplaceAll(s, `\`, `\\`), then ReplaceAll(s, dquote, `\` dquote), wrapped in dquotes *)
+Definition bslash : ascii := "\"%char.
+Definition quote_string (s : str) : str :=
+  dq :: replace_byte (replace_byte s bslash [bslash; bslash]) dq [bslash; dq] ++ [dq].
+
+(** ---- LIST / LSUB (patterns without the implied-parent branch); the third
+    component is the list of mailbox-name tokens as written on the wire ---- *)
 Definition default_subs : list str := [INBOX; S_ "Sent"; S_ "Drafts"; S_ "Trash"; S_ "Spam"].
 
 Definition handle_list (st : store) (parts : list str) : store * res * list str :=
@@ -226,7 +233,7 @@ Definition handle_list (st : store) (parts : list str) : store * res * list str 
   let reference := parse_quoted_string (nth 2 parts []) in
   let pattern := parse_quoted_string (nth 3 parts []) in
   if is_nil pattern then (st, ROk, [])
-  else (st, ROk, filter_mailboxes (names (boxes st)) reference pattern).
+  else (st, ROk, map quote_string (filter_mailboxes (names (boxes st)) reference pattern)).
 
 Definition handle_lsub (st : store) (parts : list str) : store * res * list str :=
   if length parts <? 4 then (st, RBad, []) else
@@ -235,7 +242,7 @@ Definition handle_lsub (st : store) (parts : list str) : store * res * list str 
   if is_nil pattern then (st, ROk, [])
   else
     let subs' := if is_nil (subs st) then fold_left sub_insert default_subs [] else subs st in
-    (MkStore (boxes st) subs' (next_msg st), ROk, filter_mailboxes subs' reference pattern).
+    (MkStore (boxes st) subs' (next_msg st), ROk, map quote_string (filter_mailboxes subs' reference pattern)).
 
 (** ---- STATUS ---- *)
 Definition sp_ : str := [" "%char].
